@@ -31,6 +31,14 @@ func (it *Interp) errIs(e, target Value) bool {
 			}
 		}
 	}
+	// an error type with an Unwrap() error method (os.PathError, net.OpError, ...): follow it
+	if sel := it.prog.MethodSets.MethodSet(ie.t).Lookup(nil, "Unwrap"); sel != nil {
+		if fn := it.prog.MethodValue(sel); fn != nil && fn.Signature.Params().Len() == 0 && fn.Signature.Results().Len() == 1 && len(fn.Blocks) > 0 {
+			if inner, ok := it.call(fn, []Value{ie.v}, nil, nil).(IfaceV); ok && inner.t != nil {
+				return it.errIs(inner, target)
+			}
+		}
+	}
 	return false
 }
 
